@@ -737,3 +737,29 @@ package iavl
 //@   ensures [own-key-deleted] err == nil ==> nprunes == old(nprunes) + ite(old(orphan.nodeKey.nonce) == 0 && !old(orphan.isLegacy), 2, 1)
 //@   ensures [last-is-own] err == nil && !old(orphan.isLegacy) ==> len(lastpruned) == 13 && at(lastpruned, 0) == 115
 //@   modifies *
+
+// ---------------------------------------------------------------- legacy pruning (C16): which legacy nodes may go
+//
+// A legacy orphan record o<to><from><hash> says the node was part of versions
+// from..to.  When all legacy versions up to the last one L are pruned, the node
+// may be deleted only if its lifetime ended strictly before L (to < L) or began
+// after L; a node still alive in L may be shared by the new-format versions
+// built on top of L.  The record itself is always deleted.
+//@ func (*nodeDB).deleteLegacyVersions$2(key, value) (err)
+//@   props C16 C12
+//@   nosafety
+//@   callsite nodeDB).legacyNodeKey [dead-before-boundary] toVersion < legacyLatestVersion || fromVersion > legacyLatestVersion
+//@   ensures [record-deleted] err == nil ==> nprunes >= old(nprunes) + 1
+//@   modifies *
+
+// ---------------------------------------------------------------- diff.go (C15): the previous version is walked to its end
+//
+// Every leaf of the previous version that is not under a shared subtree is
+// reported (as a removal, or paired with a new leaf of the same key); the walk
+// may therefore stop only when the previous version's iterator is exhausted (or
+// failed) — never because the new version ran out first.
+//@ func (*nodeDB).extractStateChanges(ndb, prevVersion, prevRoot, root, receiver) (err)
+//@   props C15
+//@   nosafety
+//@   callsite extractStateChanges$1 [prev-exhausted] prevIter.err != nil || len(prevIter.nodesToVisit) == 0
+//@   modifies *
